@@ -191,11 +191,10 @@ def run_case(case, ctx):
         l = t["GDEF"].table.LigCaretList
         for n, lg in zip(l.Coverage.glyphs, l.LigGlyph):
             got_carets[n] = [c.Coordinate for c in lg.CaretValue]
-    if user in ("carets", "both"):
-        if user == "carets" or user == "both":
-            ctx.label("user-gdef")
+    exported = [g["name"] for g in spec["glyphs"] if g["name"] in order]
+    if user in ("carets", "both") and exported:
+        ctx.label("user-gdef")
         # a user block with carets: the writer leaves the caret list alone
-        exported = [g["name"] for g in spec["glyphs"] if g["name"] in order]
         if got_carets != {exported[0]: [123]}:
             raise Violation("ligature carets differ from the ones the user's GDEF block defines", got=got_carets)
     else:
